@@ -52,7 +52,7 @@ func (b ObjectBuilder) UserTypeNames() []string {
 	return b.schema.UserTypesNamesUsed.Data()
 }
 
-func (b ObjectBuilder) AddType(name string, sc schema.Schema) {
+func (b ObjectBuilder) AddType(name string, sc schema.Schema) error {
 	switch s := sc.(type) {
 	case *jschema.JSchema:
 		b.schema.Inner.AddType(name, ischema.Type{
@@ -61,15 +61,17 @@ func (b ObjectBuilder) AddType(name string, sc schema.Schema) {
 		})
 
 	case *regex.RSchema:
+		// fails e.g. when the example of the regex cannot be written as a JSON string
 		js, err := jschema.FromRSchema(s)
 		if err != nil {
-			panic(err)
+			return err
 		}
 		b.schema.Inner.AddType(name, ischema.Type{
 			Schema:   js.Inner,
 			RootFile: js.File,
 		})
 	}
+	return nil
 }
 
 func (b ObjectBuilder) Build() *jschema.JSchema {
